@@ -23,19 +23,29 @@ var strClasses = []struct {
 	gen  func(r *Rng) string
 }{
 	{"empty", func(r *Rng) string { return "" }},
-	{"plain", func(r *Rng) string { return pick(r, []string{"a", "ok", "value", "x1", "hello-world", "GET", "/api/v1/users", "0", "true", "null", "a=b", "it's", "[1,2]", "{}", "<tag>&amp;", "~", "!#$%&'()*+,-./:;<=>?@[]^_`{|}~"}) }},
-	{"space", func(r *Rng) string { return pick(r, []string{" ", "a b", " lead", "trail ", "two  spaces", "the quick brown fox"}) }},
+	{"plain", func(r *Rng) string {
+		return pick(r, []string{"a", "ok", "value", "x1", "hello-world", "GET", "/api/v1/users", "0", "true", "null", "a=b", "it's", "[1,2]", "{}", "<tag>&amp;", "~", "!#$%&'()*+,-./:;<=>?@[]^_`{|}~"})
+	}},
+	{"space", func(r *Rng) string {
+		return pick(r, []string{" ", "a b", " lead", "trail ", "two  spaces", "the quick brown fox"})
+	}},
 	{"quote", func(r *Rng) string { return pick(r, []string{"\"", "say \"hi\"", "a\"b", "\"quoted\""}) }},
 	{"backslash", func(r *Rng) string { return pick(r, []string{"\\", "C:\\dir\\file", "a\\nb", "\\\\"}) }},
-	{"ctl-short", func(r *Rng) string { return pick(r, []string{"\b", "\f", "\n", "\r", "\t", "line1\nline2", "tab\there", "cr\r\n"}) }},
-	{"ctl-other", func(r *Rng) string { return pick(r, []string{"\x00", "\x01", "\x1f", "a\x1bb", "\x07bell", "nul\x00mid"}) }},
+	{"ctl-short", func(r *Rng) string {
+		return pick(r, []string{"\b", "\f", "\n", "\r", "\t", "line1\nline2", "tab\there", "cr\r\n"})
+	}},
+	{"ctl-other", func(r *Rng) string {
+		return pick(r, []string{"\x00", "\x01", "\x1f", "a\x1bb", "\x07bell", "nul\x00mid"})
+	}},
 	{"del", func(r *Rng) string { return pick(r, []string{"\x7f", "a\x7fb", "del\x7f"}) }},
 	{"boundary", func(r *Rng) string {
 		b := []byte{0x1f, 0x20, 0x21, 0x22, 0x23, 0x5b, 0x5c, 0x5d, 0x7e, 0x7f, 0x80}
 		return "b" + string([]byte{b[r.Intn(len(b))]}) + "b"
 	}},
 	{"utf8-2", func(r *Rng) string { return pick(r, []string{"é", "caf\u00e9", "\u00a0", "\u07ff", "ß"}) }},
-	{"utf8-3", func(r *Rng) string { return pick(r, []string{"€", "\u2028", "\u2029", "日本語", "\uffff", "\ufffd", "\u0800", "\ud7ff", "\ue000"}) }},
+	{"utf8-3", func(r *Rng) string {
+		return pick(r, []string{"€", "\u2028", "\u2029", "日本語", "\uffff", "\ufffd", "\u0800", "\ud7ff", "\ue000"})
+	}},
 	{"utf8-4", func(r *Rng) string { return pick(r, []string{"😀", "\U00010000", "\U0010ffff", "a😀b"}) }},
 	{"invalid-utf8", func(r *Rng) string {
 		return pick(r, []string{"\xff", "\xfe", "\x80", "\xbf", "a\xc0\xafb", "\xc1\xbf", "\xe2\x82", "\xe2", "\xed\xa0\x80", "\xed\xbf\xbf", "\xf0\x9f\x98", "\xf4\x90\x80\x80", "\xf5\x80\x80\x80", "\xe0\x80\x80", "\xf0\x80\x80\x80", "ok\xffok"})
